@@ -40,6 +40,10 @@ chk("C09", "stateless choice-DFS over documents + exhaustive string alphabet at 
     "For every generated document and for every string of the alphabet (all strings of <=2/3 runes over 41 characters + 130 look-alikes) at every string position of three base documents: p, Parse(json(p)) and Parse(yaml(p)) must agree in step kinds, canonical memory dump and marshalled bytes; stand-alone CommandStep/Plugins JSON decoders round-trip; marshalling is byte-identical under every explored order of the marshaller's map loops.",
     "YAML leg excludes multi-line strings starting with (Unicode) whitespace and the key '<<' (emitter limits); plugin source positions excluded (C17's domain).", "DESIGN.md §3 C09")
 
+chk("C04", "stateless choice-DFS over documents with every string instrumented + fault injection at every position + exhaustive map-iteration-order exploration through the seam, generic single-pass oracle",
+    "Every string (keys and values) of every generated document (<=2/3 deviations), of base documents incl. alias-shared subtrees and 11-entry maps carries a unique marker with a reference and both escape spellings; the real Pipeline.Interpolate must equal the single-pass expansion mapped over the JSON tree before the call (all but signatures, order included); a failing expansion is injected at every position in turn and must be reported; every order / renamed-key-revisited answer of the library's map loops is explored (maps <=3 entries fully, bounded deviations beyond) and each execution must give the expected result.",
+    "Single-string expansion delegated to buildkite/interpolate; unique markers avoid name collisions; plugin sources are ./paths.", "DESIGN.md §3 C04")
+
 ALL = [f"C{i:02d}" for i in range(1,20)]
 NA_REASON = {}
 man = dict(version=1, setup_cmd="./setup.sh",
